@@ -1,14 +1,105 @@
-//! (rules to be transcribed)
+//! MT101 — documented rules (doc comments of validate_* in /repo/src/messages/mt101.rs, SR2025 MT101 C1..C9 and
+//! the field 23E code rules T47/D66/D67/E46)
 use super::*;
 
-pub fn expected(_v: &RView) -> Expect {
+const VALID_23E: &[&str] = &["CHQB", "CMSW", "CMTO", "CMZB", "CORT", "EQUI", "INTC", "NETS", "OTHR", "PHON", "REPA", "RTGS", "URGP"];
+const WITH_INFO: &[&str] = &["CMTO", "PHON", "OTHR", "REPA"];
+/// unordered pairs of codes that must not appear together in one occurrence of sequence B
+const BAD_PAIRS: &[(&str, &[&str])] = &[
+    ("CHQB", &["CMSW", "CMTO", "CMZB", "CORT", "NETS", "PHON", "REPA", "RTGS", "URGP"]),
+    ("CMSW", &["CMTO", "CMZB"]),
+    ("CMTO", &["CMZB"]),
+    ("CORT", &["CMSW", "CMTO", "CMZB", "REPA"]),
+    ("EQUI", &["CMSW", "CMTO", "CMZB"]),
+    ("NETS", &["RTGS"]),
+];
+
+fn is_zero(f: &GenField) -> bool {
+    // DecStr is normalised: no leading zeros in `int`, no trailing zeros in `frac`
+    amount_of(f).map(|d| d.int.is_empty() && d.frac.is_empty()).unwrap_or(false)
+}
+
+pub fn expected(v: &RView) -> Expect {
     let mut e = Expect::default();
-    // until transcribed: every code is undetermined (no verdict)
-    e.undet("*");
+    let a = v.top();
+    let bs = v.seqs();
+
+    for b in bs.iter() {
+        let zero = get(b, "32B").map(is_zero).unwrap_or(false);
+        let codes: Vec<String> = all(b, "23E").iter().map(|x| code_of(x)).collect();
+        let equi = codes.iter().any(|c| c == "EQUI");
+
+        // C1 (D54): 36 present => 21F present
+        e.must_if(has(b, "36") && !has(b, "21F"), "D54");
+        // C2 (D60): 33B present and 32B amount != 0 => 36 mandatory; in every other case 36 not allowed
+        if has(b, "33B") && !zero {
+            e.must_if(!has(b, "36"), "D60");
+        } else {
+            e.must_if(has(b, "36"), "D60");
+        }
+        // C5 (D68): currency of 33B differs from currency of 32B
+        if let (Some(x33), Some(x32)) = (get(b, "33B"), get(b, "32B")) {
+            e.must_if(ccy_of(x33) == ccy_of(x32), "D68");
+        }
+        // C7 (D65): 56a => 57a
+        e.must_if(has(b, "56*") && !has(b, "57*"), "D65");
+        // C9 (E54): zero amount: EQUI => 33B mandatory (21F optional); otherwise 33B and 21F not allowed
+        if zero {
+            if equi {
+                e.must_if(!has(b, "33B"), "E54");
+            } else {
+                e.must_if(has(b, "33B") || has(b, "21F"), "E54");
+            }
+        }
+        // field 23E: T47 code list, D66 narrative only with CMTO/PHON/OTHR/REPA, E46 no repetition except OTHR,
+        // D67 forbidden combinations
+        for x in all(b, "23E") {
+            let c = code_of(x);
+            e.must_if(!VALID_23E.contains(&c.as_str()), "T47");
+            e.must_if(has_info(x) && !WITH_INFO.contains(&c.as_str()), "D66");
+        }
+        for (i, c) in codes.iter().enumerate() {
+            e.must_if(c != "OTHR" && codes[..i].contains(c), "E46");
+        }
+        for (x, bad) in BAD_PAIRS {
+            if codes.iter().any(|c| c == x) && codes.iter().any(|c| bad.contains(&c.as_str())) {
+                e.must("D67");
+            }
+        }
+    }
+
+    // C3 (D61): ordering customer 50a F/G/H either in A or in every B, never both, never neither
+    let oc_a = has(&a, "50[FGH]");
+    let oc_any = bs.iter().any(|b| has(b, "50[FGH]"));
+    let oc_all = !bs.is_empty() && bs.iter().all(|b| has(b, "50[FGH]"));
+    e.must_if((oc_a && oc_any) || (!oc_a && !oc_all), "D61");
+    // C4 (D62): instructing party 50a C/L in A or in B occurrences, not both
+    e.must_if(has(&a, "50[CL]") && bs.iter().any(|b| has(b, "50[CL]")), "D62");
+    // C6 (D64): 52a in A or in B occurrences, not both
+    e.must_if(has(&a, "52*") && bs.iter().any(|b| has(b, "52*")), "D64");
+    // C8 (D98): 21R present => one currency in all 32B of sequence B
+    if has(&a, "21R") {
+        let ccys: BTreeSet<String> = bs.iter().filter_map(|b| get(b, "32B").map(ccy_of)).collect();
+        e.must_if(ccys.len() > 1, "D98");
+    }
     e
 }
 
 pub fn content_hook(tag: &str, src: &mut crate::choice::Src) -> Option<String> {
-    let _ = (tag, src);
-    None
+    match tag {
+        // fewer currencies than the shared pool so that C5 (equal currencies) and C8 (all equal) hit and miss
+        "32B" | "33B" => {
+            let c = *src.pick(&["USD", "USD", "EUR", "EUR", "GBP"]);
+            let a = *src.pick(&["100,", "250,50", "1000,", "99,99", "1,"]);
+            Some(format!("{c}{a}"))
+        }
+        "23E" => {
+            // pairs from the combination table are likelier with a pool biased to the codes that occur in it
+            let c = *src.pick(&[
+                "CHQB", "CMSW", "CMTO", "CMZB", "CORT", "EQUI", "INTC", "NETS", "OTHR", "OTHR", "PHON", "REPA", "RTGS", "URGP", "ZZZZ", "HOLD",
+            ]);
+            if src.chance(1, 3) { Some(format!("{c}/INFO")) } else { Some(c.to_string()) }
+        }
+        _ => None,
+    }
 }
